@@ -30,6 +30,8 @@ type VarsCase struct {
 	ProjDir string `json:"proj_dir,omitempty"`
 	// Invoke: how spok is pointed at the project (sandbox.Box.Invoke)
 	Invoke  string            `json:"invoke,omitempty"`
+	// Outputs: "files" = standard output and error are regular files (sandbox.Box.FileOutputs)
+	Outputs string `json:"outputs,omitempty"`
 	Vars    []VarDef          `json:"vars"`
 	Ambient map[string]string `json:"ambient"`
 	DotEnv  map[string]string `json:"dotenv"`
@@ -71,6 +73,7 @@ func genVars(t *rapid.T) VarsCase {
 	c := genVarsBody(t)
 	c.ProjDir = genProjDir(t)
 	c.Invoke = genInvoke(t)
+	c.Outputs = genOutputs(t)
 	return c
 }
 
@@ -192,6 +195,7 @@ func execVars(s *ev.Shard, b *sandbox.Box, c VarsCase) *rp.Fail {
 	if err := b.ResetFor(c.ProjDir, c.Invoke); err != nil {
 		return &rp.Fail{Sig: "harness", Msg: err.Error()}
 	}
+	b.FileOutputs = c.Outputs == "files"
 	src, _ := c.source()
 	files := map[string]string{"spokfile": src, "nested/dir/": "", "real/sub/": "", "out/dir/": "", "gate.txt": "gate"}
 	if len(c.DotEnv) > 0 {
